@@ -1357,10 +1357,29 @@ class CryptographyEngine(api.CryptographicEngine):
         """
 
         if digital_signature_algorithm:
-            (hash_alg, crypto_alg) = self._digital_signature_algorithms.get(
-                                         digital_signature_algorithm,
-                                         (None, None)
-            )
+            (hash_alg, dsa_crypto_alg) = \
+                self._digital_signature_algorithms.get(
+                    digital_signature_algorithm,
+                    (None, None)
+                )
+            # As for signature verification, algorithms given in addition
+            # to the digital signature algorithm must agree with it.
+            if hash_alg and dsa_crypto_alg:
+                if hash_algorithm and (
+                    self._encryption_hash_algorithms.get(
+                        hash_algorithm
+                    ) != hash_alg
+                ):
+                    raise exceptions.InvalidField(
+                        "The hashing algorithm does not match the digital "
+                        "signature algorithm."
+                    )
+                if crypto_alg and (crypto_alg != dsa_crypto_alg):
+                    raise exceptions.InvalidField(
+                        "The signing algorithm does not match the digital "
+                        "signature algorithm."
+                    )
+            crypto_alg = dsa_crypto_alg
 
         elif crypto_alg and hash_algorithm:
             hash_alg = self._encryption_hash_algorithms.get(
